@@ -561,9 +561,8 @@ PROPS = {
     },
     "C18": {
         "lean_modules": ["Dbg.Props.C18"],
-        "theorems": ["Export.C18_refines", "Export.C18_len_upfront", "Export.C18_end_is_sticky", "Export.next_sim", "Export.nth_sim", "Export.win_succ"],
-        "partial": ["C18_all_nodes (iterating all nodes visits every graph k-mer exactly once, hence distinct MPHF slots): follows from C01's "
-                    "partition at sequence level, not yet proved; executed (`all` requests)"],
+        "theorems": ["Export.C18_all_nodes", "Export.C18_drain", "Export.C18_refines", "Export.C18_len_upfront", "Export.C18_end_is_sticky", "Export.next_sim", "Export.nth_sim", "Export.win_succ"],
+        "partial": [],
         "n_quick": 4000, "n_thorough": 300000,
         "nontrivial": lambda toks, impl: impl != "panic" and (toks[1] == "all" or toks[5].count(",") >= 1), "tags": _c18_tags,
         "shrink": _c18_shrink,
